@@ -464,12 +464,13 @@ Definition dy_body c a b v10 v01 v11 v20 v02 (s0 : StR) : StR :=
   else s0.
 Lemma dyadic_unfold c a b v0 v10 v01 v11 v20 v02 s :
   dyadic F idR c a b v0 v10 v01 v11 v20 v02 s =
-  match dy_guard (rd s a) (rd s b) with
+  let s0 := alloc_for_two F c a b s in
+  match dy_guard (rd s0 a) (rd s0 b) with
   | Some e => Panic e
-  | None => let s0 := alloc_for_two F c a b s in let sg := dy_body c a b v10 v01 v11 v20 v02 s0 in
+  | None => let sg := dy_body c a b v10 v01 v11 v20 v02 s0 in
             Ok (upd sg c (set_v idR (sg c) v0))
   end.
-Proof. unfold dyadic, dyadic_lazy. destruct (dy_guard (rd s a) (rd s b)); reflexivity. Qed.
+Proof. unfold dyadic, dyadic_lazy. cbv zeta. destruct (dy_guard _ _); reflexivity. Qed.
 
 Theorem dyadic_spec c a b v0 v10 v01 v11 v20 v02 (s : StR) :
   wf (s c) -> wf (rd s a) -> wf (rd s b) -> sym_reg (rd s a) -> sym_reg (rd s b) ->
@@ -486,11 +487,12 @@ Theorem dyadic_spec c a b v0 v10 v01 v11 v20 v02 (s : StR) :
                         + gdR (rd s a) i * gdR (rd s b) j * v11 + gdR (rd s b) i * gdR (rd s a) j * v11).
 Proof.
   intros Hwc Hwa Hwb Hsa Hsb Hguard Hkeep n o.
-  rewrite dyadic_unfold. rewrite Hguard. cbv zeta.
+  rewrite dyadic_unfold. cbv zeta.
   set (s0 := alloc_for_two F c a b s).
   set (A := rd s a) in *. set (B := rd s b) in *.
   assert (HA0 : rd s0 a = A) by (apply rd_alloc_for_two; auto).
   assert (HB0 : rd s0 b = B) by (apply rd_alloc_for_two; auto).
+  rewrite HA0, HB0, Hguard.
   assert (Hc0 : s0 c = alloc F (s c) n o) by (unfold s0, alloc_for_two; apply upd_same).
   assert (Hn0 : rn (s0 c) = n) by (rewrite Hc0; apply alloc_n).
   assert (Ho0 : rorder (s0 c) = o) by (rewrite Hc0; apply alloc_order).
